@@ -651,7 +651,8 @@ pub fn random_op(r: &mut Rng, u: &Universe, w: &World, last: &Option<Op>, live: 
         x if x < mx[0] => {
             let how = *r.pick(&[0u8, 0, 0, 1, 1, 2]);
             let frame = *r.pick(&u.data[s as usize]);
-            let f = leaf_flags(r);
+            // huge leaves may carry the PAT bit (bit 12 of a huge-page entry)
+            let f = leaf_flags(r) | if s > 0 && r.chance(1, 3) { 1 << 12 } else { 0 };
             let pf = parent_flags(r);
             // allocator schedule: enough frames, or fail at request 1, 2 or 3
             let mut answers: Vec<Option<u64>> = Vec::new();
@@ -676,7 +677,7 @@ pub fn random_op(r: &mut Rng, u: &Universe, w: &World, last: &Option<Op>, live: 
             Op::Map { s, page, frame, f, pf, how, answers }
         }
         x if x < mx[1] => Op::Unmap { s, page },
-        x if x < mx[2] => Op::Update { s, page, f: leaf_flags(r) },
+        x if x < mx[2] => Op::Update { s, page, f: leaf_flags(r) | if s > 0 && r.chance(1, 3) { 1 << 12 } else { 0 } },
         x if x < mx[3] => Op::SetFlags { s, page, k: 2 + r.below(3) as u8, f: parent_flags(r) },
         x if x < mx[4] => Op::TranslatePage { s, page },
         x if x < mx[5] => {
